@@ -50,6 +50,7 @@ func runC06(c *core.Ctx) {
 	ruleCCITTLookahead(c, "C06-R21")
 	ruleCCITTTagAfterEOL(c, "C06-R22")
 	ruleCCITTEncoderTerminating(c, "C06-R23")
+	ruleCCITTColourTables(c, "C06-R24")
 	ruleAliasHygiene(c, [3]string{"C06-R12", "C06-R13", "C06-R14"}, "pdf/internal/filter/lzw", "pdf/internal/filter/predict", "pdf/internal/filter/runlength", "pdf/internal/filter/ccittfax", "pdf/internal/filter/ascii85", "pdf/internal/filter/asciihex")
 }
 
@@ -105,6 +106,7 @@ func runC07(c *core.Ctx) {
 	ruleCCITTRunLoops(c, "C07-R10")
 	ruleCCITTLookahead(c, "C07-R11")
 	ruleCCITTEncoderTerminating(c, "C07-R12")
+	ruleCCITTColourTables(c, "C07-R13")
 }
 
 func ruleFilterNames(c *core.Ctx) {
